@@ -125,6 +125,20 @@ CHECKS = {
         "runtime monitoring: audit-hook fs event log + icontract invariant on NameSelector + offline site checks",
         "3/C10",
     ),
+    "C13": (
+        "exploration",
+        "Runtime monitor over complete FORD runs with graphs on (forked child): generated projects with known module-use, "
+        "submodule-ancestry, type extension/composition, call and file-dependency relations (chains, diamonds, cycles, disconnected "
+        "parts; equal file base names), per-entity graph:false / graph_maxdepth / graph_maxnodes metadata, project graph_maxdepth, "
+        "show_proc_parent. The DOT body of every per-entity and project-wide graph object of the real Documentation is compared with "
+        "the hop-wise ball of the model relation; edge endpoints must be nodes; untruncated forward/inverse graphs must be inverses; at "
+        "the quiescent point after graph_all() the inverse adjacency sets of all node objects are checked for consistency; graph:false "
+        "entities own no graphs.",
+        "Per-entity graphs in which a graph:false entity takes part are not judged (documentation leaves it open); one known finding "
+        "(graph:false entity drawn as a neighbour in project-wide graphs); display includes private; no type-bound/internal procedures.",
+        "runtime monitoring: reference-model oracle over captured DOT sources + invariant check at a quiescent hook",
+        "3/C13",
+    ),
     "C14": (
         "exploration",
         "Runtime monitor (metamorphic) on the real fixed-to-free converter + reader + parser: each generated program is written "
